@@ -211,6 +211,37 @@ def deploy(b, shared, user):
                    env={"ASAN_OPTIONS": "detect_leaks=0", "UBSAN_OPTIONS": "print_stacktrace=1:halt_on_error=1"}, timeout=600)
 
 
+def eng_corpus(ctx):
+    """corpus/C01/*.eng: histories in the session-harness format (docs/ENG.md) on the synthetic workspace with the oracle
+    translator – the replays of the two defects found while modelling CommitHistory and the punctuator chains (round 3);
+    run first in every check.  An abnormal end of the real code is a violation keyed eng-replay:<file>."""
+    import englib
+    cdir = os.path.join(vlib.VERIF, "corpus", "C01")
+    files = sorted(f for f in os.listdir(cdir) if f.endswith(".eng")) if os.path.isdir(cdir) else []
+    if not files:
+        return
+    impl = englib.build("asan")
+    work = ctx.scratch("c01eng")
+    ran = []
+    for f in files:
+        hs = []
+        for l in open(os.path.join(cdir, f)).read().split("\n"):
+            l = l.strip()
+            if not l or l.startswith("#"):
+                continue
+            if l.startswith("schema "):
+                hs.append((l.split()[1], []))
+            elif hs:
+                hs[-1][1].append(l)
+        outs, crashes = englib.run_impl_resilient(impl, work, "synth", hs, tag="c01eng")
+        ran.append({"file": f, "histories": len(hs), "abnormal_ends": len(crashes)})
+        for idx, rc, err in crashes:
+            ctx.violation("eng-replay:" + f[:-4], "the real code ends abnormally on a recorded session history (rc=%d)" % rc,
+                          {"file": "corpus/C01/" + f, "schema": hs[idx][0], "history": hs[idx][1], "stderr": err[-2500:],
+                           "how": "%s <scratch> synth corpus/C01/%s" % (impl, f)}, found_input=True)
+    ctx.coverage["eng_corpus"] = ran
+
+
 def run(ctx):
     ctx.coverage["trusted_base"] = [
         "Coq 8.16.1 kernel + vm_compute for the generated-table sweeps; no native_compute",
@@ -226,6 +257,7 @@ def run(ctx):
     ]
     res = vlib.proof_stage(ctx)
     proof_ok = res["ok"]
+    eng_corpus(ctx)
     b = vlib.librime_build("asan")
     exe = vlib.cxx_build(os.path.join(vlib.WORK, "bin", "c01"), [os.path.join(vlib.VERIF, "harness", "c16", "c16.cc")],
                          flags="-I%s/src" % b, libs="-L%s/lib -lrime -Wl,-rpath,%s/lib" % (b, b))
@@ -286,6 +318,8 @@ def run(ctx):
     cdir = os.path.join(vlib.VERIF, "corpus", "C01")
     if os.path.isdir(cdir):
         for f in sorted(os.listdir(cdir)):
+            if f.endswith(".eng"):
+                continue      # session-harness histories (docs/ENG.md format): replayed by eng_corpus() below
             lines = [l for l in open(os.path.join(cdir, f)).read().split("\n") if l.strip()]
             jobs.insert(0, ("corpus-" + f, os.path.join(tmpl, "shared"), os.path.join(tmpl, "user", "build"), lines, {"schema": "stock", "corpus": f}))
     with ThreadPoolExecutor(max_workers=vlib.NPROC) as ex:
